@@ -68,7 +68,7 @@ pub open spec fn batch_ok(items: Seq<ZoomRecord>) -> bool {
 //@sub /\(bytes, 0\)/ => (bytes.bytes, 0)
 //@sub /io::Result</ => Result<
 //@sub /usize\)> \{/ => usize), IoError> {
-//@sub /\((item\.summary\.\w+) as f32\)/ => (f64_to_f32(\1)) min=4
+//@sub /\((item\.summary\.\w+) as f32\)/ => (f64_to_f32(\1)) min=0
 //@ret r
 //@sig
     requires
